@@ -4,6 +4,7 @@
 -/
 import Y0.Lemmas.CfFscm
 import Y0.Lemmas.Ctf
+import Y0.Spec.CtfSem
 
 namespace Y0.Ctf
 open Relation Y0.MG Y0.Fscm
@@ -98,5 +99,33 @@ theorem forced_worldOf_some_mem (ν : BaseValues) (S : List Iv) (a : Name) (x : 
     (h : forced (worldOf ν S) a = some x) : a ∈ S.map (·.name) := by
   by_contra hn
   rw [forced_worldOf_none ν S a hn] at h; cases h
+
+/-- the Boolean conjunction over the conjuncts of an event is the relational `EventHolds` -/
+theorem eventConjuncts_all (M : Model) (ν : BaseValues) (u : NoisePoint) (e : List (Var × Option Iv)) :
+    (eventConjuncts ν e).all (holds M u) = true ↔ EventHolds M ν u e := by
+  unfold eventConjuncts EventHolds
+  simp only [List.all_eq_true, List.mem_filterMap, Option.map_eq_some_iff]
+  constructor
+  · intro h p hp i hi
+    have := h (conjunctOf ν (p.1, i)) ⟨p, hp, i, hi, rfl⟩
+    simpa [holds, conjunctOf] using this
+  · rintro h c ⟨p, hp, i, hi, rfl⟩
+    simpa [holds, conjunctOf] using h p hp i hi
+
+theorem probEventOpt_zero (M : Model) (ν : BaseValues) (e : List (Var × Option Iv))
+    (h : ∀ u, ¬ EventHolds M ν u e) : probEventOpt M ν e = 0 := by
+  unfold probEventOpt
+  apply prob_eq_zero_of_never
+  intro u
+  by_contra hc
+  exact h u ((eventConjuncts_all M ν u e).1 (by simpa using hc))
+
+theorem probEventOpt_congr (M : Model) (ν : BaseValues) (e e' : List (Var × Option Iv))
+    (h : ∀ u, EventHolds M ν u e ↔ EventHolds M ν u e') : probEventOpt M ν e = probEventOpt M ν e' := by
+  unfold probEventOpt
+  apply prob_congr
+  intro u
+  rw [Bool.eq_iff_iff, eventConjuncts_all, eventConjuncts_all]
+  exact h u
 
 end Y0.Ctf
